@@ -199,6 +199,17 @@ def convert_and_read(case):
         except Exception as ex:  # noqa: BLE001
             o["structure"] = f"{type(ex).__name__}: {str(ex)[:160]}"
             return o
+        try:
+            return _read_back(out, o)
+        except Exception as ex:  # noqa: BLE001  (the written geff cannot be read / described: an observation)
+            return {"unreadable": f"{type(ex).__name__}: {str(ex)[:200]}"}
+
+
+def _read_back(out, o):
+    from geff.core_io import read_to_memory
+    from geff.validate.data import ValidationConfig, validate_data
+
+    if True:
         g = read_to_memory(out)
         md = g["metadata"]
         o["nodes"] = [int(x) for x in g["node_ids"]]
@@ -233,8 +244,8 @@ def observe(case):
 
         zarr.config.set({"async.concurrency": 2, "threading.max_workers": 2})   # 16 forked workers: no oversubscription
         return convert_and_read(case)
-    except BaseException as ex:  # noqa: BLE001  (harness-side read failure is an observation too)
-        return {"exc": "HARNESS-" + type(ex).__name__, "msg": str(ex)[:300]}
+    except BaseException as ex:  # noqa: BLE001  (nothing may abort the check: whatever happens is an observation)
+        return {"unreadable": f"{type(ex).__name__}: {str(ex)[:300]}"}
 
 
 # ----------------------------------------------------------------- specification oracle
@@ -301,6 +312,9 @@ def lineage_partition_ok(nodes, labels, edges):
 def oracle(case, o):
     doc, ds, dt = case["doc"], case["ds"], case["dt"]
     bad = []
+    if "unreadable" in o:
+        return [("C16:output-unreadable", f"the converter returned but its output cannot be read back / described: {o['unreadable']}",
+                 "a geff that read_to_memory reads")]
     if "exc" in o:
         return [("C16:exception", f"well-formed document raises {o['exc']}: {o.get('msg', '')}", "a geff")]
     if o.get("structure") != "ok":
@@ -755,6 +769,10 @@ def compare_model(case, o, mo):
     """-> (verdict, detail): verdict in {"same", "differs", "unmodelled"}"""
     if "err" in mo:
         return "differs", f"driver error {mo['err']}"
+    if "unreadable" in o:
+        if "exc" in mo and not mo["exc"].startswith("unmodelled"):
+            return "differs", f"model raises {mo['exc']}, implementation wrote an unreadable output: {o['unreadable']}"
+        return "differs", f"implementation output unreadable: {o['unreadable']}"
     if "exc" in mo:
         if mo["exc"].startswith("unmodelled"):
             return "unmodelled", mo["exc"]
@@ -836,20 +854,53 @@ def run(ck: common.Check):
     ck.extra["corpus_cases"] = n_corpus
     ck.extra["exhaustive_upto_spots"] = nmax
     obs = common.pmap(observe, cases, chunksize=4)
-    answers = drv.ask([model_request(c) for c in cases])
+    def guarded(what, c, f, dflt):
+        """nothing the harness computes about a case may abort the check: an exception here means the
+        implementation's output has a form the oracle cannot judge — reported with the case as replay"""
+        try:
+            return f()
+        except Exception as ex:  # noqa: BLE001
+            ck.fail("C16:harness-cannot-judge-output", f"{what} raised {type(ex).__name__}: {str(ex)[:160]}", c,
+                    None, "an output of the specified form")
+            return dflt
+
+    empty_req = {"space": None, "time": None, "sf": [], "ef": [], "tf": [], "spots": [], "tracks": [], "filtered": None,
+                 "ds": False, "dt": False}
+    answers = drv.ask([guarded("building the model request", c, lambda c=c: model_request(c), empty_req) for c in cases])
     if answers is None:
         ck.broken.append({"what": "driver Drivers/C16.lean", "detail": drv.broken})
     n_unmodelled = n_model = n_spec = 0
     wf_hist = {}
+
+    def spec_crosscheck(c, sp):
+        keep, _, track_of = expected_graph(c["doc"], c["ds"], c["dt"])
+        ids = [s_["id"] for s_ in c["doc"]["spots"]]
+        lean_tid = [None if t is None else int(t.get("i", t.get("fi", "-999999"))) for t in sp["track_id"]]
+        if not (sp["wf"] and sp["meta_ok"] and sp["connected"]):
+            ck.corr_broken("C16:generated document of the regular stream fails wfB/metaOkB/tracksConnectedB "
+                           "(theorems would not apply)", c, None, sp)
+        elif [int(x) for x in sp["keep"]] != keep:
+            ck.corr_broken("C16:keepSpot (Lean spec) vs python oracle: kept spots", c, keep, sp["keep"])
+        elif lean_tid != [track_of.get(n) for n in ids]:
+            ck.corr_broken("C16:trackIdOf (Lean spec) vs python oracle", c, [track_of.get(n) for n in ids], lean_tid)
+        elif sp["lone"] != [n not in track_of for n in ids]:
+            ck.corr_broken("C16:lone (Lean spec) vs python oracle", c, None, sp["lone"])
+
     for i, (c, o) in enumerate(zip(cases, obs)):
-        ck.case({k: v for k, v in c.items() if k not in ("doc", "xml_path")} | {"doc_digest": json.dumps(c["doc"], sort_keys=True)[:4000]},
-                tag_of(c, o), nontrivial=bool(c["doc"]["spots"]))
-        if str(o.get("exc", "")).startswith("HARNESS-"):
-            ck.broken.append({"what": "corr C16 harness read-back", "detail": {"case": c, "obs": o}})
-            continue
-        fails = [] if c.get("malformed") else oracle(c, o)
+        ck.case({k: v for k, v in c.items() if k not in ("doc", "xml_path")} | {"doc_digest": json.dumps(c["doc"], sort_keys=True, default=str)[:4000]},
+                guarded("tagging", c, lambda: tag_of(c, o), "untagged"), nontrivial=bool(c["doc"].get("spots")))
+        if c.get("malformed"):
+            fails = []
+            if "unreadable" in o:      # no verdict on what a malformed document should give, but the output must be readable
+                fails = [("C16:output-unreadable", f"malformed document ({c['malformed']}): the converter returned but its output "
+                          f"cannot be read back: {o['unreadable']}", "an exception or a readable geff")]
+        else:
+            fails = guarded("the specification oracle", c, lambda: oracle(c, o), [("C16:harness-cannot-judge-output", "", "")])
         for key, what, exp in fails:
-            ck.fail(key, what, c, {k: o.get(k) for k in ("exc", "msg", "nodes", "edges", "lineage", "graph", "track_node_props") if k in o}, exp)
+            if key == "C16:harness-cannot-judge-output":
+                continue      # already recorded by guarded()
+            ck.fail(key, what, c, {k: o.get(k) for k in ("exc", "msg", "unreadable", "structure", "nodes", "edges", "lineage", "graph",
+                                                         "track_node_props") if k in o}, exp)
         if answers is None:
             continue
         sp = answers[i].get("spec")
@@ -862,26 +913,16 @@ def run(ck: common.Check):
             wf_hist[key3] = wf_hist.get(key3, 0) + 1
             if not c.get("malformed"):
                 n_spec += 1
-                keep, _, track_of = expected_graph(c["doc"], c["ds"], c["dt"])
-                ids = [s_["id"] for s_ in c["doc"]["spots"]]
-                lean_tid = [None if t is None else int(t.get("i", t.get("fi", "-999999"))) for t in sp["track_id"]]
-                if not (sp["wf"] and sp["meta_ok"] and sp["connected"]):
-                    ck.corr_broken("C16:generated document of the regular stream fails wfB/metaOkB/tracksConnectedB "
-                                   "(theorems would not apply)", c, None, sp)
-                elif [int(x) for x in sp["keep"]] != keep:
-                    ck.corr_broken("C16:keepSpot (Lean spec) vs python oracle: kept spots", c, keep, sp["keep"])
-                elif lean_tid != [track_of.get(n) for n in ids]:
-                    ck.corr_broken("C16:trackIdOf (Lean spec) vs python oracle", c, [track_of.get(n) for n in ids], lean_tid)
-                elif sp["lone"] != [n not in track_of for n in ids]:
-                    ck.corr_broken("C16:lone (Lean spec) vs python oracle", c, None, sp["lone"])
-        verdict, detail = compare_model(c, o, answers[i])
+                guarded("cross-checking the Lean spec vocabulary", c, lambda: spec_crosscheck(c, sp), None)
+        verdict, detail = guarded("comparing with the model", c, lambda: compare_model(c, o, answers[i]),
+                                  ("differs", "comparison failed"))
         if verdict == "unmodelled":
             n_unmodelled += 1
         else:
             n_model += 1
         if verdict == "differs" and not fails:
             ck.corr_broken(f"C16:Geff.TrackMate.convert vs from_trackmate_xml_to_geff: {detail}", c,
-                           {k: o.get(k) for k in ("exc", "msg", "nodes", "edges") if k in o},
+                           {k: o.get(k) for k in ("exc", "msg", "unreadable", "nodes", "edges") if k in o},
                            answers[i] if "exc" in answers[i] else "see model")
     ck.extra["model_comparisons"] = n_model
     ck.extra["s_oracle_evaluations"] = n_spec
@@ -910,10 +951,15 @@ def replay(rp):
     if os.path.isdir("/dev/shm") and os.access("/dev/shm", os.W_OK):
         tempfile.tempdir = "/dev/shm"
     o = observe(c)
-    fails = [] if c.get("malformed") else oracle(c, o)
+    try:
+        fails = [] if c.get("malformed") else oracle(c, o)
+        if c.get("malformed") and "unreadable" in o:
+            fails = [("C16:output-unreadable", o["unreadable"], "")]
+    except Exception as ex:  # noqa: BLE001
+        fails = [("C16:harness-cannot-judge-output", f"the specification oracle raised {type(ex).__name__}: {ex}", "")]
     known = {k["key"] for k in common.load_known() if k["property"] == PROP and k["kind"] == "known"}
     print(json.dumps({"flags": {k: c[k] for k in ("ds", "dt", "zf", "via") if k in c}, "xml": render(c["doc"])[:3000],
-                      "observed": {k: o.get(k) for k in ("exc", "msg", "nodes", "edges", "graph", "lineage", "track_node_props") if k in o},
+                      "observed": {k: o.get(k) for k in ("exc", "msg", "unreadable", "structure", "nodes", "edges", "graph", "lineage", "track_node_props") if k in o},
                       "failures": [[k, w] for k, w, _ in fails]}, default=str))
     real = [f for f in fails if f[0] not in known]
     print("REPLAY: property holds on this input" if not fails else
